@@ -62,6 +62,8 @@ def run_spec(
         n = p["obj"]["n"]
         if draw(st.integers(0, 2)) == 0:
             r["args"] = [draw(st.integers(-5, 5)), "tag"]
+        if draw(st.integers(0, 4)) == 0:
+            r["fun_style"] = draw(st.sampled_from(["array1", "array0"]))
         if draw(st.integers(0, 3)) == 0:
             cfg["max_steplength"] = draw(st.sampled_from([1e8, 10.0, 1.0, 0.1]))
         if draw(st.integers(0, 3)) == 0:
@@ -124,6 +126,8 @@ def execute(rspec: Dict[str, Any], *, prob: Optional[Problem] = None, **over) ->
         kw["callback"] = [False] * cb + [True]
     if "args" in rspec:
         kw["extra"] = dict(kw.get("extra") or {}, args=tuple(rspec["args"]))
+    if "fun_style" in rspec:
+        kw["fun_style"] = rspec["fun_style"]
     kw.update(over)
     cfg = dict(rspec["cfg"])
     cfg.update(kw.pop("cfg_over", {}))
